@@ -45,6 +45,26 @@ STRENGTHENED = {
     "C18-superseded-handler-untracked": "missed at first; C18 gained the scenario slow-twice (token re-used while the first handler runs) and counts running handlers",
     "C18-empty-ack-timer-outlives-transport": "missed at first; the shutdown fault gained loop stalls after the 1st..6th iteration of the shutdown (late timers)",
     "C15-pong-skips-critical-check": "missed at first; the alphabet gained critical/elective options in Pong, Release and Abort",
+    # round 6 (as-built run with the checks of commit 6f... before any extension: see DESIGN 12.5)
+    "C03-response-mid-coincidence": "missed at first; C03 gained the older request's response carrying the message ID of the CON under test",
+    "C04-stale-reply-after-mid-reuse": "harness fault at first (the state digest assumed a dict); the digest is now robust and the check reports the stale reply",
+    "C05-block1-stateless-ack-stops": "missed at first; the strict server can now acknowledge non-final blocks with the final code and M=0 (ok-stateless)",
+    "C06-timeoutdict-idle-never-rearms": "missed at first; C06 gained prefixes in which the state drains once and a new transfer is left alone for twice the lifetime",
+    "C08-empty-reply-deduplicated": "missed at first; C08 gained S-OBS-midcollide (the server's first own message ID equals the ID of the registration request)",
+    "C08-observer-table-keyed-by-token": "harness fault at first (the harness replaced the observer set); now only a plain set is replaced, and S-OBS-sametoken (two endpoints, identical token bytes) reports it",
+    "C09-giveup-keeps-backlog-key": "missed at first; C09 gained giveup_then_later (separate responses never acknowledged, a request long after)",
+    "C10-early-ack-on-duplicate": "missed at first; C10 gained the second copy of a CON request inside / outside the EMPTY_ACK_DELAY window",
+    "C10-mcast-request-stale-token": "missed at first; C10 gained the multicast request that is given up and a late response on its token",
+    "C11-piv-length-overannounced": "missed at first: accepted as 'representation only' because the result equalled the original; that tolerance is now limited to the k flag and the ID context spelling",
+    "C11-seqno-handed-out-before-persisted": "missed by C11 at first (C13 caught it); C11 gained response binding across a process death of a file-backed client",
+    "C12-send-first-stale-window": "missed at first; the lost-state family gained an own message protected before the first request",
+    "C15-encode-2byte-threshold": "harness fault at first (OverflowError out of _serialize); serialisation errors are now violations",
+    "C16-empty-userinfo-accepted": "missed at first; the authority family gained user info that is present but empty",
+    "C17-wkc-ct-zero": "missed at first; the attribute alphabet gained the integer content format 0",
+    "C17-wkc-stale-description": "missed at first; C17 gained a resource written against the bare interface (no get_link_description)",
+    "C18-dispatch-error-stale-timer": "missed by C18 at first (C02 and C14 caught it); C18 gained the bystander that is also a client of the context that goes away",
+    "C20-anchor-resolved-against-target": "missed at first; C20 gained links with relative anchors",
+    "C20-zero-lt-treated-as-absent": "missed at first; C20 gained lifetime 0 in registrations and updates",
     # round 5 (several checks were extended from the authors' reports before the matrix was run; "missed at first" is what the
     # checks of commit 7582383 did, see DESIGN 12.5)
     "C01-recv-buffer": "missed at first; the fake socket now cuts a datagram that does not fit the buffer it is handed (as the kernel does) and C01 sends whole datagrams of up to 4096 bytes through the real recvmsg transport",
